@@ -21,11 +21,11 @@ func runInstrument(repo, out string) error {
 	if err := os.MkdirAll(filepath.Join(out, "vyield"), 0o755); err != nil {
 		return err
 	}
-	hook := "// Package vyield is added by the verification harness (never part of /repo).\npackage vyield\n\n// Hook is called at every instrumented point when set.\nvar Hook func()\n\n// P is the instrumentation point.\nfunc P() {\n\tif Hook != nil {\n\t\tHook()\n\t}\n}\n"
+	hook := "// Package vyield is added by the verification harness (never part of /repo).\npackage vyield\n\n// Hook is called at every instrumented point when set.\nvar Hook func()\n\n// P is the instrumentation point.\nfunc P() {\n\tif Hook != nil {\n\t\tHook()\n\t}\n}\n\n// HookU is called right after a synchronisation release (Unlock, Pool.Put, atomic store) when set.\nvar HookU func()\n\n// U is that instrumentation point.\nfunc U() {\n\tif HookU != nil {\n\t\tHookU()\n\t}\n}\n"
 	if err := os.WriteFile(filepath.Join(out, "vyield", "vyield.go"), []byte(hook), 0o644); err != nil {
 		return err
 	}
-	n := 0
+	n, nu := 0, 0
 	err := filepath.Walk(repo, func(path string, info os.FileInfo, err error) error {
 		if err != nil {
 			return err
@@ -56,6 +56,62 @@ func runInstrument(repo, out string) error {
 			return &ast.ExprStmt{X: &ast.CallExpr{Fun: &ast.SelectorExpr{X: ast.NewIdent("vyield"), Sel: ast.NewIdent("P")}}}
 		}
 		touched := false
+		// first pass: a U() point right after every statement that releases something another
+		// task may be waiting for or may observe (x.Unlock(), x.RUnlock(), pool.Put(v), atomic
+		// Store/Swap/CompareAndSwap), and for `defer x.Unlock()` a deferred U() registered just
+		// before it, so that it runs just after the unlock
+		ucall := func() ast.Stmt {
+			return &ast.ExprStmt{X: &ast.CallExpr{Fun: &ast.SelectorExpr{X: ast.NewIdent("vyield"), Sel: ast.NewIdent("U")}}}
+		}
+		releases := func(e ast.Expr) bool {
+			c, ok := e.(*ast.CallExpr)
+			if !ok {
+				return false
+			}
+			sel, ok := c.Fun.(*ast.SelectorExpr)
+			if !ok {
+				return false
+			}
+			switch sel.Sel.Name {
+			case "Unlock", "RUnlock", "Put", "Store", "Swap", "CompareAndSwap", "StorePointer", "StoreInt32", "StoreInt64", "StoreUint32", "StoreUint64":
+				return true
+			}
+			return false
+		}
+		rewrite := func(list []ast.Stmt) []ast.Stmt {
+			var out []ast.Stmt
+			for _, st := range list {
+				switch x := st.(type) {
+				case *ast.ExprStmt:
+					out = append(out, st)
+					if releases(x.X) {
+						out = append(out, ucall())
+						touched = true
+						nu++
+					}
+					continue
+				case *ast.DeferStmt:
+					if releases(x.Call) {
+						out = append(out, &ast.DeferStmt{Call: ucall().(*ast.ExprStmt).X.(*ast.CallExpr)})
+						touched = true
+						nu++
+					}
+				}
+				out = append(out, st)
+			}
+			return out
+		}
+		ast.Inspect(f, func(nd ast.Node) bool {
+			switch x := nd.(type) {
+			case *ast.BlockStmt:
+				x.List = rewrite(x.List)
+			case *ast.CaseClause:
+				x.Body = rewrite(x.Body)
+			case *ast.CommClause:
+				x.Body = rewrite(x.Body)
+			}
+			return true
+		})
 		ast.Inspect(f, func(nd ast.Node) bool {
 			var body *ast.BlockStmt
 			switch x := nd.(type) {
@@ -90,6 +146,6 @@ func runInstrument(repo, out string) error {
 	if err != nil {
 		return err
 	}
-	fmt.Printf("vsim: instrumented copy of %s in %s (%d yield points)\n", repo, out, n)
+	fmt.Printf("vsim: instrumented copy of %s in %s (%d yield points, %d after a release)\n", repo, out, n, nu)
 	return nil
 }
